@@ -310,6 +310,12 @@ func monC02(f *Facts) []Violation {
 		for _, t := range fj.Tasks {
 			deps[t.Name] = t.Deps
 		}
+		// "every acyclic depends_on graph is accepted": a job that never started and ends canceled with an error although
+		// its graph is acyclic and it does not carry the reserved variable was refused by the graph builder
+		if isDAG(deps) && !fj.Bad && fj.Canceled && !fj.Started() && len(j.Runs) == 0 && strings.Contains(fj.LastError, "cycle") {
+			vs = append(vs, Violation{Property: "C02", Rule: "dag-accepted", Norm: "acyclic-graph-rejected-as-cyclic",
+				Msg: fmt.Sprintf("job %d has the acyclic graph {%s} but was refused with %q", idx, graphString(deps), fj.LastError)})
+		}
 		for _, r := range j.Runs {
 			for _, dep := range deps[r.Task] {
 				ok := false
@@ -1012,10 +1018,26 @@ func monC15(f *Facts, pre, post *Dump, ev XEvent, newEvents []Event, listed inte
 			}
 		}
 	}
-	// timestamps
+	// timestamps, task order
 	if post != nil {
 		for k := range post.Jobs {
 			j := &post.Jobs[k]
+			deps := map[string][]string{}
+			pos := map[string]int{}
+			for i, t := range j.Tasks {
+				deps[t.Name] = t.Deps
+				pos[t.Name] = i
+			}
+			if isDAG(deps) {
+				for _, t := range j.Tasks {
+					for _, d := range t.Deps {
+						if pd, ok := pos[d]; ok && pd > pos[t.Name] {
+							vs = append(vs, Violation{Property: "C15", Rule: "task-order-topological", Norm: "task-listed-before-dependency",
+								Msg: fmt.Sprintf("job %d lists task %s before its dependency %s: %s", j.Idx, t.Name, d, jobStr(j))})
+						}
+					}
+				}
+			}
 			if j.Started() && j.Start < j.Created {
 				vs = append(vs, Violation{Property: "C15", Rule: "timestamps", Norm: "start-before-created", Msg: fmt.Sprintf("job %d: start %v < created %v", j.Idx, j.Start, j.Created)})
 			}
